@@ -43,8 +43,8 @@ class OracleLoop(asyncio.SelectorEventLoop):
 
     MAX_IDLE_ITER = 3000
 
-    def __init__(self, eng, D=0):
-        super().__init__()
+    def __init__(self, eng, D=0, selector=None):
+        super().__init__(selector)
         self.eng = eng
         self.pending = []
         self.active = False
@@ -108,7 +108,12 @@ class OracleLoop(asyncio.SelectorEventLoop):
 # ---------------------------------------------------------------------------
 # the oracle proxy
 
-class OracleProxy(LocalProxy):
+class ObservedSend:
+    """Observation points shared by the in-process and the in-memory remote proxy: requests and replies are logged and fed
+    to the reference model at the proxy boundary; `_raw_send` is the real send() of the proxy class."""
+
+    park_replies = True
+
     async def send(self, request):
         f, args, kw = request
         ctx = CTX
@@ -132,8 +137,8 @@ class OracleProxy(LocalProxy):
         fault = ctx.get('fault')
         if fault is not None and active:
             fault(self, sid, f, 'before')
-        r = await super().send(request)
-        if active and f in ('step', 'get_data') and sid not in ctx['sync']:
+        r = await self._raw_send(request)
+        if self.park_replies and active and f in ('step', 'get_data') and sid not in ctx['sync']:
             await loop.park(sid, f)
         if fault is not None and active:
             r = fault(self, sid, f, 'after', r)
@@ -150,9 +155,14 @@ class OracleProxy(LocalProxy):
             hook('reply', sid, f, r)
         return r
 
+
+class OracleProxy(ObservedSend, LocalProxy):
+    async def _raw_send(self, request):
+        return await LocalProxy.send(self, request)
+
     async def stop(self):
         CTX['log'].append(('stop', getattr(self, '_sid', None)))
-        await super().stop()
+        await LocalProxy.stop(self)
 
 
 async def oracle_inproc(mosaik_config, sim_name, sim_config, mosaik_remote):
@@ -348,7 +358,7 @@ def build(world, ref, topo, eng, cfg):
                     rec(it, path + [gid])
             else:
                 typ = topo['types'][it]
-                f = world.start('S', sim_id=it, typ=typ)
+                f = world.start('R' if it in cfg.get('remote', ()) else 'S', sim_id=it, typ=typ)
                 n_ent = 1 + max([0] + [('e', 'f', 'g').index(e.get(k, 'e')) for e in topo['edges'] for k, s_ in (('se', e['src']), ('de', e['dst'])) if s_ == it])
                 made = f.M.create(n_ent)
                 ents[it] = {x.eid: x for x in made}
@@ -404,6 +414,9 @@ def classify_exception(e):
     return {'exc_type': type(e).__name__, 'exc_msg': str(e)[:200], 'where': where}
 
 
+CTX_EXTRA = {}     # additional CTX entries for the next run_world (harness-specific callbacks)
+
+
 class Run:
     """result of one monitored run of the real World"""
     def __init__(self):
@@ -425,7 +438,14 @@ def run_world(eng, topo, cfg, behaviour=None, hook=None, fault=None, rules=None,
     until = cfg.get('until', 3)
     if until == 'sym':
         until = eng.int('until', cfg.get('until_min', 1))
-    loop = OracleLoop(eng, D=cfg.get('D', 0))
+    remote_sids = set(cfg.get('remote', ()))
+    if remote_sids:
+        from vk import remote as R
+        loop = R.MemLoop(eng, D=cfg.get('D', 0))
+        remote_ctx = R.patched
+    else:
+        loop = OracleLoop(eng, D=cfg.get('D', 0))
+        remote_ctx = contextlib.nullcontext
     log = []
     ref = None
     if not cfg.get('no_ref'):
@@ -437,14 +457,15 @@ def run_world(eng, topo, cfg, behaviour=None, hook=None, fault=None, rules=None,
                no_self=set(cfg.get('no_self', ())), behaviour=behaviour, hook=hook, fault=fault,
                quiet_after_K=cfg.get('quiet_after_K', True),
                bounded_times=bool(cfg.get('cache', True) or cfg.get('debug', False)))
+    CTX.update(CTX_EXTRA)
     r = Run()
     r.ref, r.loop, r.log, r.until = ref, loop, log, until
-    with patched(salt=cfg.get('salt', 0)):
+    with patched(salt=cfg.get('salt', 0)), remote_ctx():
         wk = dict(skip_greetings=True, asyncio_loop=loop, cache=cfg.get('cache', True), debug=cfg.get('debug', False),
                   max_loop_iterations=cfg.get('max_loop_iterations', 100))
         if world_kwargs:
             wk.update(world_kwargs)
-        w = mosaik.World({'S': {'python': 'vk.sysrun:SymSim'}}, **wk)
+        w = mosaik.World({'S': {'python': 'vk.sysrun:SymSim'}, 'R': {'connect': 'mem:1'}}, **wk)
         r.world = w
         try:
             build(w, ref, topo, eng, cfg)
